@@ -153,7 +153,7 @@ Proof.
   rewrite C1, C5 in Gi. destruct (in_seg_elim _ _ _ _ Gi) as (_ & Gi0 & _).
   destruct (p_kind src) eqn:EK.
   - (* struct *)
-    cbv beta iota in Sh. destruct Sh as [Sh Hcomp].
+    cbv beta iota in Sh. destruct Sh as (Sh & Hcomp & _).
     destruct (os_isZero (p_size src)) eqn:EZ.
     + rewrite empty_struct_word_eq in HW. cbn [of_opt_panic bind] in HW. unfold lift0 in HW.
       destruct (writeRawPointer (w_dst w) (fst q) (snd q) empty_struct_word) as [m'| |] eqn:EW; cbn [bind] in HW; try discriminate.
@@ -362,7 +362,7 @@ Proof.
   - (* a table struct *)
     destruct (core_facts p) as (C1 & C2 & C3 & C4 & C5 & C6 & C7).
     destruct (hi_good _ _ _ H _ V) as [_ G]. destruct G as (Sh & _). apply (proj1 C7) in Sh. unfold shape_ok in Sh. rewrite Ek in Sh.
-    destruct Sh as ((Hd & Hm & Hp) & Hc).
+    destruct Sh as ((Hd & Hm & Hp) & Hc & _).
     exists (core p). split; [exact V|]. rewrite C1, C3, C5. cbn [core p_seg p_off].
     assert (TS : totalSize (p_size p) = DataSize (p_size p) + 8 * PointerCount (p_size p)) by (unfold totalSize, pointerSize, u32; lia).
     unfold obj_reg, obj_bytes, obj_start. rewrite Ek, Hc. cbn [r_size]. rewrite TS.
@@ -657,7 +657,8 @@ Proof.
     cbn [sub_op] in Hop.
     eapply (alloc_ctor st objs pads sid _ m1 s1 a); eauto.
     + apply totalSize_nn.
-    + unfold shape_ok. cbn [p_kind p_size p_comp]. unfold os_wf, padToWord, u32. cbn [DataSize PointerCount]. lia.
+    + unfold shape_ok. cbn [p_kind p_size p_comp p_len p_bit]. unfold os_wf, padToWord, u32. cbn [DataSize PointerCount].
+      split; [lia|]. split; [reflexivity|]. split; reflexivity.
   - (* NewPrim *)
     destruct (negb (valid_sid st sid)) eqn:EV.
     { intros E _. injection E as <- _. exists objs, pads. now apply sinv_push_null. }
